@@ -1,5 +1,6 @@
 """C19 — generic-parameter usage analysis is exact (analysis half)."""
 import json
+import re
 import vlib
 from vlib import capp, clist, cstr, cbool, copt
 
@@ -159,6 +160,132 @@ def node_stats(n, st):
             node_stats(v, st)
 
 
+MAGIC_FREE = ["alpha", "beta", "gamma", "delta", "eps", "zeta"]
+TRAITS6 = ["FromMeta", "FromDeriveInput", "FromField", "FromVariant", "FromTypeParam", "FromAttributes"]
+
+
+def gen_bound_decl(rng):
+    """a generic receiver declaration; returns (trait, source, declared params, planted = params used by parsed fields, skip flags per field in echo order)"""
+    trait = rng.choice(TRAITS6 + ["FromMeta", "FromMeta"])
+    declared = rng.sample(["T", "U", "V", "W"], rng.randint(1, 3))
+    own_bounds = {p: rng.choice(["", "", ": Clone", ": Tr<u8> + Send"]) for p in declared}
+    extra = rng.choice(["", "'a, ", "'a, 'b: 'a, "])
+    consts = rng.choice(["", "", ", const N: usize"])
+    generics = "<%s%s%s>" % (extra, ", ".join(p + own_bounds[p] for p in declared), consts)
+    where = rng.choice(["", "", " where %s: Copy" % declared[0], " where Vec<%s>: Send, %s: 'static" % (declared[0], declared[-1])])
+    planted = set()
+    flags = []
+
+    def field(name, allow_flatten):
+        g = Gen(rng, declared, [], False)
+        # only the declared parameters and concrete types, so that nothing else looks like a use
+        t = g.ty(rng.choice([0, 1, 2, 3]))
+        opts = []
+        r = rng.random()
+        skipped = False
+        if r < 0.3:
+            opts.append("skip")
+            skipped = True
+        elif r < 0.4 and allow_flatten[0]:
+            opts.append("flatten")
+            allow_flatten[0] = False
+        elif r < 0.5:
+            opts.append("multiple")
+        elif r < 0.6:
+            opts.append("default")
+        if not skipped:
+            planted.update(g.used_tp)
+        flags.append(skipped)
+        return "%s%s: %s" % ("#[darling(%s)] " % ", ".join(opts) if opts else "", name, t)
+
+    if trait == "FromMeta" and rng.random() < 0.5:
+        vs = []
+        for vn in rng.sample(["First", "Second", "Third", "Fourth"], rng.randint(1, 4)):
+            vskip = rng.random() < 0.25
+            style = rng.choice(["unit", "newtype", "struct", "struct"])
+            before = (set(planted), len(flags))
+            if style == "unit":
+                body = ""
+            elif style == "newtype":
+                g = Gen(rng, declared, [], False)
+                body = "(%s)" % g.ty(rng.choice([0, 1, 2]))
+                planted.update(g.used_tp)
+                flags.append(False)
+            else:
+                af = [False]
+                body = " { %s }" % ", ".join(field(n, af) for n in rng.sample(MAGIC_FREE, rng.randint(0, 3)))
+            if vskip:
+                planted.clear()
+                planted.update(before[0])
+                for k in range(before[1], len(flags)):
+                    flags[k] = True
+            vs.append("%s%s%s" % ("#[darling(skip)] " if vskip else "", vn, body))
+        src = "enum R%s%s { %s }" % (generics, where, ", ".join(vs))
+    else:
+        af = [True]
+        names = rng.sample(MAGIC_FREE, rng.randint(1, 5))
+        attrs = "#[darling(attributes(a))] " if trait != "FromMeta" else ""
+        src = "%sstruct R%s%s { %s }" % (attrs, generics, where, ", ".join(field(n, af) for n in names))
+    return trait, src, declared, sorted(planted), flags
+
+
+def bounds_part(R, prop, binary, tier):
+    """the impl-header half: the conversion-trait bound is added to exactly the declared type parameters used by parsed fields"""
+    n = 700 if tier == "quick" else 12000
+    cases = []
+    for i in range(n):
+        trait, src, declared, planted, flags = gen_bound_decl(R.rng)
+        cases.append({"id": i, "op": "derive", "trait": trait, "src": src, "declared": declared, "planted": planted, "flags": flags})
+    results = vlib.run_harness(binary, cases)
+    terms, keep, rejected = [], [], 0
+    for c in cases:
+        r = results.get(c["id"], {})
+        if "unparsed" in r or not r.get("impls"):
+            rejected += 1
+            continue
+        body = r["echo"]["body"]
+        flds = []
+        if body["t"] == "struct":
+            flds = body["fields"]["fields"]
+        elif body["t"] == "enum":
+            for v in body["variants"]:
+                flds += v["fields"]["fields"]
+        if len(flds) != len(c["flags"]):
+            R.violation("render-error", "field count mismatch for %s" % c["src"], {"case": c, "failed": "generator"}, found_input=False)
+            continue
+        nodes = [f["ty"] for f, sk in zip(flds, c["flags"]) if not sk]
+        im = r["impls"][0]
+        observed = sorted(p for p, bs in im["param_bounds"] if any("darling :: FromMeta" in b for b in bs))
+        # the receiver's own bounds and where-clause are repeated unchanged
+        for p, bs in im["param_bounds"]:
+            rest = [b for b in bs if "darling :: FromMeta" not in b]
+            want = [b.strip() for b in re.split(r"\+", re.sub(r"^[^:]*:", "", next((x for x in c["src"][c["src"].index("<") + 1:].split(",") if x.strip().startswith(p)), p + ":"), count=1)) if b.strip()] \
+                if (p + ":") in c["src"].replace(" ", "")[:200] else []
+            # compared loosely (token spacing differs): same number of bounds
+            if len(rest) != len(want) and not (len(want) == 0 and len(rest) == 0):
+                R.violation("header", "impl header changed the receiver's own bounds on %s: %s vs source %s" % (p, rest, want),
+                            {"case": c, "observation": im, "failed": "impl header comparison"})
+        if (im.get("where") or "").replace(" ", "") != (r["echo"].get("where_toks") or "").replace(" ", ""):
+            R.violation("header", "impl header changed the where-clause: %r vs %r" % (im.get("where"), r["echo"].get("where_toks")),
+                        {"case": c, "observation": im, "failed": "impl header comparison"})
+        terms.append("{| u_lifetimes := false; u_declare := false; u_set := %s; u_nodes := %s; u_expected := %s; u_obs := %s |}" % (
+            clist([cstr(x) for x in c["declared"]]), clist([c_node(x) for x in nodes]), clist([cstr(x) for x in c["planted"]]),
+            "(Some %s)" % clist([cstr(x) for x in observed])))
+        keep.append(c)
+    bad, errors = vlib.coq_eval(prop, HEADER, terms, "run19 %s", tag="bounds")
+    vlib.decide(R, terms, bad, errors,
+                describe=lambda i: "derive(%s) on `%s` (parameters used by parsed fields: %s)" % (keep[i]["trait"], keep[i]["src"], keep[i]["planted"]),
+                model_body="Eval vm_compute in (model_usage c, u_obs c, u_expected c).",
+                key_fn=lambda i: "impl-bounds",
+                size_fn=lambda i: len(keep[i]["src"]),
+                header=HEADER, results=results, cases=keep,
+                failed_holds="holds19 on the impl header: the conversion-trait bound is on exactly the declared parameters used by parsed (non-skipped) fields of non-skipped variants",
+                failed_agree="correspondence agree19 (impl header vs Usage/Usage.v over the parsed fields' types)")
+    return {"evaluations": len(keep), "rejected_or_unparsed": rejected,
+            "nontrivial": sum(1 for c in keep if c["planted"] and any(c["flags"])),
+            "enums": sum(1 for c in keep if c["src"].startswith("enum")), "samples": [{k: c[k] for k in ("trait", "src", "planted")} for c in keep[:3]]}
+
+
 def run(tier, seed, replay=None):
     prop = "C19"
     R = vlib.Run(prop, tier, seed)
@@ -170,8 +297,18 @@ def run(tier, seed, replay=None):
         return R.finish()
     n = 5000 if tier == "quick" else 80000
     cases = []
+    bcov = None
     if replay:
-        cases = [json.load(open(replay))["case"]]
+        rc = json.load(open(replay))["case"]
+        if rc.get("op") == "derive":
+            # replay of an impl-header case
+            R.rng.seed(0)
+            results = vlib.run_harness(binary, [dict(rc, id=0)])
+            print(json.dumps(results.get(0, {}).get("impls"), indent=1)[:2000])
+            return R.finish()
+        cases = [rc]
+    else:
+        bcov = bounds_part(R, prop, binary, tier)
     while len(cases) < n and not replay:
         declare = R.rng.random() < 0.5
         lifetimes = R.rng.random() < 0.35
@@ -213,20 +350,23 @@ def run(tier, seed, replay=None):
                 failed_holds="holds19 (Exec/UsageCase.v): exactly the parameters planted at use positions, none outside the query set",
                 failed_agree="correspondence agree19 (Exec/UsageCase.v) with Usage/Usage.v")
     R.coverage.update({
-        "evaluations": len(keep),
+        "evaluations": len(keep) + (bcov or {}).get("evaluations", 0),
         "distinct_nontrivial": len({json.dumps([c["types"], c["set"], c["declare"], c["lifetimes"]]) for c in keep
-                                    if c["expected"] or any(len(t) > 12 for t in c["types"])}),
+                                    if c["expected"] or any(len(t) > 12 for t in c["types"])}) + (bcov or {}).get("nontrivial", 0),
         "rule": "types from a grammar over every syn::Type form valid in field position (depth <= 5): slices, arrays, pointers, references, bare fns, "
                 "tuples, parens, paths with angle-bracketed / parenthesized arguments, associated types and constraints, trait objects, impl Trait, "
                 "qualified self, macros, inferred / never; parameters planted at use positions (leading segment, generic arguments, ...) and at "
                 "non-use positions (path tails, global paths, macro bodies, const-expression arguments, array lengths, qself for BoundImpl); random "
-                "query sets, both purposes, type parameters and lifetimes, single types and collections; the generator's planting is the ground truth",
+                "query sets, both purposes, type parameters and lifetimes, single types and collections; the generator's planting is the ground truth. "
+                "Impl-header half: generic receiver declarations (six derives; structs and enums with unit / newtype / struct variants; skip on fields and variants, flatten, "
+                "multiple, default; own bounds, lifetimes, consts, where-clauses) through derive::*: the set of parameters that received the conversion-trait bound must equal "
+                "the parameters planted in parsed fields, own bounds and where-clause unchanged; non-trivial = a planted parameter and a skipped field",
         "samples": [{k: v for k, v in keep[i].items() if k not in ("id", "op")} for i in (0, 1, len(keep) // 2, len(keep) - 1) if i < len(keep)],
         "distribution": {"node_kinds": kinds, "sources_rejected_by_syn": unparsed,
                          "lifetimes_cases": sum(1 for c in keep if c["lifetimes"]),
                          "collections": sum(1 for c in keep if c["collection"]),
-                         "declare": sum(1 for c in keep if c["declare"])},
+                         "declare": sum(1 for c in keep if c["declare"]), "impl_headers": bcov},
     })
     R.assumptions = ["the mirror of syn::Type into the model's node language (harness/vh-rt/src/usage.rs) is trusted glue",
-                     "the impl-header half of C19 (bounds on exactly the used declared parameters) is checked by the derive-time machinery"]
+                     "impl headers are read from the token stream derive::* returns (no rustc involved)"]
     return R.finish()
